@@ -62,6 +62,10 @@ func c07Configs(env *engine.Env) []c07Config {
 			return s.doc(append(append([]model.Entry{}, payload[1:]...), c01Fractional()...), root)
 		}})
 	}
+	// a tree holding a symbolic link with an absolute target inside the tree itself (kept literally, however the source is referenced)
+	out = append(out, c07Config{name: "abs-link-tree", doc: func(env *engine.Env, root string) fixture.Doc {
+		return Setting{Name: "default"}.doc([]model.Entry{{Src: "abslinks", Dst: "/opt/app", Type: "tree"}, {Src: "abslinks/*", Dst: "/opt/glob"}}, root)
+	}})
 	// changelogs: one whose entries partly lack a date / a packager, and a long one
 	for _, cl := range []string{"changelog-undated.yaml", "changelog-big.yaml"} {
 		cl := cl
@@ -79,8 +83,8 @@ func c07Configs(env *engine.Env) []c07Config {
 			m.Rel[k] = relItems(k, "versioned")
 		}
 		m.RPMPrefixes, m.RPMGroup = []string{"/usr"}, "g"
-		m.IPKFields = map[string]string{"Source": "x", "X-B": "y", "X-A": "z"}
-		m.DebFields = map[string]string{"Bugs": "y", "X-B": "1", "X-A": "2", "X-C": "3"}
+		m.IPKFields = map[string]string{"Source": "x", "source": "lower", "X-B": "y", "x-b": "lower-b", "X-A": "z", "X-origin": "o1", "x-Origin": "o2"}
+		m.DebFields = map[string]string{"Bugs": "y", "bugs": "lower", "X-B": "1", "X-A": "2", "X-C": "3", "x-c": "lower-c"}
 		m.DebTriggers = map[string][]string{"interest": {"a"}, "activate_noawait": {"b"}}
 		m.Epoch, m.Release, m.Prerelease, m.Metadata = "1", "2", "rc1", "git"
 		m.Changelog = true
@@ -159,7 +163,7 @@ func init() {
 						if part == "hostname" && f != "rpm" {
 							continue
 						}
-						if !env.Thorough() && (part == "subproc" || part == "sde") && i >= c01NQuick && c.only == "" && !c.heavy && c.name != "metadata-rich" {
+						if !env.Thorough() && (part == "subproc" || part == "sde") && i >= c01NQuick && strings.HasPrefix(c.name, "entry-") {
 							continue
 						}
 						if part == "maporder" && c.heavy {
@@ -423,6 +427,22 @@ func checkC07(env *engine.Env, ci any) engine.Outcome {
 		runBin("TZ=America/St_Johns", text, work, "TZ=America/St_Johns")
 		runBin("GOMAXPROCS=1", text, work, "GOMAXPROCS=1")
 		runBin("GOMAXPROCS=16", text, work, "GOMAXPROCS=16")
+		// what was at the target path before is not an input
+		func() {
+			cp := filepath.Join(work, "nfpm.yaml")
+			os.WriteFile(cp, []byte(text), 0o644)
+			target := filepath.Join(work, "pre-existing.pkg")
+			os.WriteFile(target, bytes.Repeat([]byte("an earlier, larger package\n"), 200000), 0o644)
+			cmd := exec.Command(bin, "package", "-f", cp, "-p", f, "-t", target)
+			cmd.Dir = work
+			cmd.Env = os.Environ()
+			if o, err := cmd.CombinedOutput(); err != nil {
+				add("over-existing-file", nil, fmt.Errorf("%v: %s", err, o))
+				return
+			}
+			b, err := os.ReadFile(target)
+			add("over-existing-file", b, err)
+		}()
 		// the process umask, locale and home directory are not inputs
 		runBin("umask=077", text, work, "UMASK=077")
 		runBin("umask=000", text, work, "UMASK=000")
